@@ -436,7 +436,7 @@ Section WithJ.
   Lemma carve_BH_unf ms x :
     carve_BH (O:=R_ops J) ms x =
     match filter (fun p => Rltb x (snd p)) ms with
-    | [] => Err IndexError
+    | [] => Ok []
     | l => Ok (set_first_lower l x)
     end.
   Proof. reflexivity. Qed.
@@ -444,7 +444,7 @@ Section WithJ.
   Lemma carve_WD_unf ms x :
     carve_WD (O:=R_ops J) ms x =
     match filter (fun p => Rleb (fst p) x) ms with
-    | [] => Err IndexError
+    | [] => Ok []
     | l => Ok (set_last_upper l x)
     end.
   Proof. reflexivity. Qed.
